@@ -357,8 +357,13 @@ func NewWALDecoder(rd io.Reader) *WALDecoder {
 func (dec *WALDecoder) Decode() (*TimedWALMessage, error) {
 	b := make([]byte, 4)
 
-	_, err := dec.rd.Read(b)
+	nc, err := dec.rd.Read(b)
 	if errors.Is(err, io.EOF) {
+		if nc > 0 {
+			// the log ends inside the checksum field (the group reader returns the bytes it
+			// got together with io.EOF): a torn record, not a clean end of the log
+			return nil, DataCorruptionError{fmt.Errorf("failed to read checksum: %v (read: %d, wanted: 4)", io.ErrUnexpectedEOF, nc)}
+		}
 		return nil, err
 	}
 	if err != nil {
